@@ -565,13 +565,22 @@ class CCITTFaxDecoder(CCITTG4Parser):
         self._buf += arr.tobytes()
 
 
-def ccittfaxdecode(data: bytes, params: Dict[str, object]) -> bytes:
+# Widest row that is decoded. The parser keeps two rows in memory and walks
+# along them, so that a corrupt /Columns must not be taken at face value.
+MAX_COLUMNS = 1 << 20
+
+
+def ccittfaxdecode(data: bytes, params: Optional[Dict[str, object]]) -> bytes:
+    if params is None:
+        params = {}
     K = params.get("K")
     # ISO 32000-1 Table 11: every negative K selects pure two-dimensional
     # (Group 4) encoding, not only -1
     if isinstance(K, (int, float)) and K < 0:
         # ISO 32000-1 Table 11: the default width is 1728 pixels
-        cols = cast(int, params.get("Columns", 1728))
+        cols = params.get("Columns", 1728)
+        if not isinstance(cols, int) or not 0 < cols <= MAX_COLUMNS:
+            raise PDFValueError("Unsupported `Columns': %r" % (cols,))
         bytealign = cast(bool, params.get("EncodedByteAlign"))
         reversed = cast(bool, params.get("BlackIs1"))
         parser = CCITTFaxDecoder(cols, bytealign=bytealign, reversed=reversed)
